@@ -5,7 +5,7 @@ import scen_common
 PID = "C04"
 PROP_V = ["Props/Properties_C04.v", "Props/Properties_C01x.v"]
 GEN_MODULES = ["Consts", "Sites"]
-FLOW_FILES = ['cv.c', 'sem_wait.c']
+FLOW_FILES = ['cv.c', 'sem_wait.c', 'mu.c', 'wait.c']
 REPLAY_HINT = "VRT_SEED=<seed> VRT_MODE=<m> _work/h/cv_mix (or waitn_mix)"
 PARTIAL = ["C04_no_lost_wakeup(_waitn): a waiter at its semaphore wait whose record a waker took is still on that waker's private list, or on the abstract "
            "mutex's queue / wake list, or has waiting = 0 with a post available, its waker at the V for it, or a post owed by the abstract mutex.  C04_no_stuck / "
